@@ -755,7 +755,16 @@ func rulePXGroupRender(c *Ctx) []Obligation {
 		if closeT != "" {
 			closeEmpty = fact3(F, "empty("+closeT+")")
 		}
-		wantNL, known := and3(not3(fact3(F, nullA)), fact3(F, "recv.multi"), not3(closeEmpty))
+		// the list renderer's first result: "nothing was rendered" as a bool, or the number rendered
+		null3 := fact3(F, nullA)
+		if !null3[1] {
+			if v := fact3(F, "lt(0,"+nullA+")"); v[1] {
+				null3 = [2]bool{!v[0], true}
+			} else if v := fact3(F, "eq(0,"+nullA+")"); v[1] {
+				null3 = [2]bool{v[0], true}
+			}
+		}
+		wantNL, known := and3(not3(null3), fact3(F, "recv.multi"), not3(closeEmpty))
 		if !known {
 			t.note("the trailing newline is decided by: items were rendered, the group is multi-line, it has a close token", false, "path %s writes %s after the items without having tested all three (facts %s)", traceOf(p), segsString(after), F)
 			continue
@@ -912,6 +921,7 @@ func (c *Ctx) checkListPaths(o *obs, f *ssa.Function, sp listSpec) {
 		okStream := true
 		why := ""
 		dictOK, dictWhy := true, ""
+		nRendered := 0
 		nextEvents := func(upto func(e Ev) bool) (writes []pseg, hit *Ev) {
 			for ev < len(p.Events) {
 				e := &p.Events[ev]
@@ -1000,6 +1010,7 @@ func (c *Ctx) checkListPaths(o *obs, f *ssa.Function, sp listSpec) {
 				okStream, why = false, fmt.Sprintf("item %d is rendered with arguments %v", k, hit.Args)
 			}
 			rendered = true
+			nRendered++
 			// Dict guard decided?
 			if sp.dictGuard {
 				v3 := fact3(F, `eq("values",`+strings.TrimSuffix(sp.list, ".items")+`.name)`)
@@ -1071,7 +1082,11 @@ func (c *Ctx) checkListPaths(o *obs, f *ssa.Function, sp listSpec) {
 		}
 		if sp.boolResult && len(p.Ret) == 2 {
 			b, isC := p.Ret[0].boolVal()
-			t.note("the result tells whether nothing was rendered", isC && b == !rendered && p.Ret[1].Nil, "path %s returns %v after rendering something: %v", traceOf(p), p.Ret, rendered)
+			okRes := isC && b == !rendered
+			if n, isN := p.Ret[0].intVal(); isN {
+				okRes = int(n) == nRendered // a count of the items rendered serves the same purpose
+			}
+			t.note("the result tells whether nothing was rendered", okRes && p.Ret[1].Nil, "path %s returns %v after rendering %d item(s)", traceOf(p), p.Ret, nRendered)
 		}
 	}
 	t.require("nil / null items produce nothing; every other item is rendered, preceded by the separator iff an item was rendered before (and by a newline iff multi-line)")
